@@ -85,7 +85,7 @@ def gen_case(rng, tier):
                 kw["checklines"] = rng.choice([0, 0, 0, 1, 1, 2, 10])
             if strat == "merge" and cfg["fmf"]:
                 kw["force_merge_fields"] = list(cfg["fmf"])
-            ops.append({"op": "update", "feats": feats, "form": rng.choice(FORMS), "kw": kw})
+            ops.append({"op": "update", "feats": feats, "form": rng.choice(FORMS), "kw": kw, "other_dialect": rng.random() < 0.12})
         elif k == "delete":
             ids = rng.sample(idpool, rng.choice([1, 1, 2]))
             form = rng.choice(["str", "strs", "feature", "features", "gen"]) if len(ids) == 1 else rng.choice(["strs", "features", "gen"])
@@ -171,7 +171,8 @@ def gen_gtf_case(rng, tier):
                 kw["make_backup"] = False
             if strat == "merge" and cfg["fmf"]:
                 kw["force_merge_fields"] = list(cfg["fmf"])
-            ops.append({"op": "update", "feats": [gtf_feat(rng) for _ in range(rng.choice([0, 1, 2, 2, 3, 4]))], "form": rng.choice(FORMS), "kw": kw})
+            ops.append({"op": "update", "feats": [gtf_feat(rng) for _ in range(rng.choice([0, 1, 2, 2, 3, 4]))], "form": rng.choice(FORMS), "kw": kw,
+                        "other_dialect": rng.random() < 0.3})
         elif k == "delete":
             ids = rng.sample(idpool, rng.choice([1, 1, 2]))
             ops.append({"op": "delete", "ids": ids, "form": rng.choice(["strs", "features", "gen"]), "kw": {"make_backup": rng.random() < 0.6}})
@@ -300,7 +301,12 @@ class Hist(object):
         fault = op.get("fault") or {}
         if "src" in fault:
             form = fault.get("form", form)
-        spec = G.source_spec(None, op["feats"], form=form, d=self.dialect())
+        d_ = self.dialect()
+        if op.get("other_dialect"):
+            # the update's data is written in the other format's attribute syntax (key=value for a GTF database,
+            # key "value"; for a GFF3 database): the same attributes, and the database keeps its own format
+            d_ = G.DEFAULT_GFF3 if self.cfg.get("fmt") == "gtf" else dict(G.DEFAULT_GTF)
+        spec = G.source_spec(None, op["feats"], form=form, d=d_)
         if "src" in fault:
             spec["fail_at"] = fault["src"]
         return spec
